@@ -1337,7 +1337,8 @@ pub fn run(rep: &Reporter) -> Coverage {
         let n = chars.len();
         let plain = build_store(text, &[], None, None);
         let two = build_store(text, &[], Some(R2_TEXT), None);
-        let bound = if n <= bound_maxlen { Some(build_store(text, &all_ranges(n), None, None)) } else { None };
+        // the annotated store also has a milestone every 2 codepoints (byte<->codepoint index entries the search results are converted through)
+        let bound = if n <= bound_maxlen { Some(build_store(text, &all_ranges(n), None, Some(Config::default().with_milestone_interval(2)))) } else { None };
         let ctx = Ctx { text, chars, plain: &plain, bound: bound.as_ref(), two: Some(&two) };
         let (mut c, mut k, mut nt) = (0u64, 0u64, 0u64);
         let sc = scopes(n);
@@ -1466,7 +1467,7 @@ pub fn replay(rep: &Reporter, case: &Value) {
     let n = chars.len();
     let plain = build_store(&text, &[], None, None);
     let two = build_store(&text, &[], Some(R2_TEXT), None);
-    let bound = build_store(&text, &all_ranges(n), None, None);
+    let bound = build_store(&text, &all_ranges(n), None, Some(Config::default().with_milestone_interval(2)));
     let ctx = Ctx { text: &text, chars, plain: &plain, bound: Some(&bound), two: Some(&two) };
     println!("replay C07: text={:?} scope={:?} recv={} op={}", text, scope, recv.name(), op.to_json());
     check_op(rep, &ctx, scope, recv, &op, 0, true);
